@@ -8,7 +8,7 @@
 (* TLC evaluates Wire!Encode(m) = bytes, decoded = expected, and rejection  *)
 (* of the ill-formed variants.                                              *)
 (***************************************************************************)
-EXTENDS TraceLib, Wire
+EXTENDS TraceLib, WireParse
 
 VARIABLES l, kinds
 vars == <<l, kinds>>
@@ -21,6 +21,10 @@ Step(e) ==
             /\ Chk("C13", "encoder-emits-the-canonical-bencoding", l, e.ok => Encode(e.m) = e.bytes)
             /\ kinds' = kinds \cup {e.m.kind}
       [] e.ev = "Dec" ->
+            \* the specification's own reading of the datagram must agree with what the harness says the variant is:
+            \* a disagreement is a defect of the machinery (oracle or variant generator), never of the code
+            /\ IF (e.must = "accept" /\ Interpret(e.bytes) = e.expect) \/ (e.must # "accept" /\ Interpret(e.bytes) = Reject)
+               THEN TRUE ELSE PrintT(<<"ORACLEMISMATCH", e.variant, l>>)
             /\ IF e.must = "accept"
                THEN /\ Chk("C13", "decoder-accepts-" \o e.variant, l, e.ok)
                     /\ Chk("C13", "decoder-yields-the-same-message-" \o e.variant, l, e.ok => e.m = e.expect)
